@@ -9,8 +9,8 @@ Request:  `close run <trace peer0>|<trace peer1>`      trace = `-` or `;`-joined
               transport on k, `ys:k` SCTP moved to k, `cn` new channel, `ce:j:o|g|x` channel j opened / closing / closed
   transceiver `x:i:ss` sender started, `x:i:rs` receiver started, `x:i:f:p|s|r` first step of rtp / sender-rtcp /
               receiver-rtcp, `x:i:e:p|s|r` it set its exited event, `x:i:ds` decoder stopped by the peer, `x:i:mt` remote
-              track exists, `x:i:as:k` moved to transport k
-  transport   `t:k:is` `t:k:id:0|1` `t:k:ds` `t:k:du` `t:k:df` `t:k:pe` `t:k:mf` `t:k:me` `t:k:dc`
+              track exists, `x:i:as:k` moved to transport k, `x:i:c:p|s|r` cancelled by an application stop()
+  transport   `t:k:is` `t:k:id:0|1` `t:k:ds` `t:k:du` `t:k:df` `t:k:pe` `t:k:mf` `t:k:me` `t:k:ns` (next step of a BUNDLE clean-up)
   connect     `kf:c` first step, `ke:c` finished, `ss` sctp.start()
   close       `c:er:i c:cr:i c:lr:i c:es:i c:cp:i c:cs:i c:ls:i c:ec c:lc c:ed:k c:cu:k c:ld:k c:ei:k c:ck:k c:li:k c:lx`
               `wr` a secondary close() returned
@@ -53,6 +53,7 @@ def parseTrxAct? : List String → Option TrxAct
   | ["ds"] => some .decoderStop
   | ["mt"] => some .mkTrack
   | ["as", k] => (parseNat? k).map .assign
+  | ["c", w] => (parseWhich? w).map .cancel
   | _ => none
 
 def parseTptAct? : List String → Option TptAct
@@ -64,7 +65,7 @@ def parseTptAct? : List String → Option TptAct
   | ["pe"] => some .pumpExit
   | ["mf"] => some .monFirst
   | ["me"] => some .monExit
-  | ["dc"] => some .discard
+  | ["ns"] => some .nstep
   | _ => none
 
 def parseAction? (tok : String) : Option Action :=
